@@ -772,3 +772,214 @@ Proof. intros F A H [S [HS _]]. exact (H S HS). Qed.
 
 (* every semantics except stable has an extension in a well-formed framework
    (the ideal case is [idl_exists] below) *)
+
+(* ------------------------------------------------------------------ *)
+(** * 5. The ideal extension *)
+
+Definition below_pr (F : af) (S : list nat) : Prop := forall P, pr F P -> incl S P.
+
+Definition below_prb (F : af) (S : list nat) : bool :=
+  forallb (fun P => subsetb S P) (filter (prb F) (powerset (args F))).
+
+Lemma below_prb_spec : forall F S, below_prb F S = true <-> below_pr F S.
+Proof. intros F S. apply inside_spec. Qed.
+
+Lemma below_pr_seteq : forall F S T, seteq S T -> below_pr F S -> below_pr F T.
+Proof. intros F S T E H P HP. apply (seteq_incl_l S T P E). apply H. exact HP. Qed.
+
+Lemma idl_iff_below : forall F S,
+  idl F S <-> adm F S /\ below_pr F S /\ forall S', adm F S' -> below_pr F S' -> incl S' S.
+Proof. intros F S. reflexivity. Qed.
+
+(* admissible sets below all preferred extensions are closed under union *)
+Lemma below_pr_union : forall F S T, wf F ->
+  adm F S -> below_pr F S -> adm F T -> below_pr F T ->
+  adm F (S ++ T) /\ below_pr F (S ++ T).
+Proof.
+  intros F S T Hw HS HbS HT HbT.
+  assert (Hb : below_pr F (S ++ T)).
+  { intros P HP. apply incl_app; [apply HbS | apply HbT]; exact HP. }
+  split; [|exact Hb]. destruct (pr_exists F Hw) as [P HP].
+  apply adm_union; [exact HS | exact HT|].
+  apply (cf_incl F (S ++ T) P (Hb P HP)). apply adm_cf. apply pr_adm. exact HP.
+Qed.
+
+Theorem idl_exists : forall F, wf F -> exists S, idl F S.
+Proof.
+  intros F Hw.
+  destruct (fin_max (args F) (fun T => admb F T && below_prb F T)
+                    (fun T => adm F T /\ below_pr F T) (msize F))
+    as [M [_ [[HMa HMb] Hmax]]].
+  - intros T. rewrite andb_true_iff, admb_adm, below_prb_spec. reflexivity.
+  - intros T U E [Ha Hb]. split; [exact (adm_seteq F T U E Ha) | exact (below_pr_seteq F T U E Hb)].
+  - apply msize_seteq.
+  - exists []. split; [intros a []|]. split; [apply adm_nil | intros P _ a []].
+  - exists M. split; [exact HMa|]. split; [exact HMb|].
+    intros S' HS' Hb'.
+    destruct (below_pr_union F M S' Hw HMa HMb HS' Hb') as [HUa HUb].
+    assert (Hi : incl M (M ++ S')) by (apply incl_appl; apply incl_refl).
+    apply (incl_tran (m := M ++ S')); [apply incl_appr; apply incl_refl|].
+    apply (msize_eq_incl F M (M ++ S') Hi (adm_incl F _ HUa)).
+    apply Nat.le_antisymm; [apply msize_le; exact Hi|].
+    apply Hmax; [apply adm_incl; exact HUa | split; assumption].
+Qed.
+
+Theorem idl_unique : forall F S T, wf F -> idl F S -> idl F T -> seteq S T.
+Proof.
+  intros F S T _ [HSa [HSb HSm]] [HTa [HTb HTm]]. apply seteq_incl_both.
+  - apply HTm; assumption.
+  - apply HSm; assumption.
+Qed.
+
+Lemma gr_below_pr : forall F G, wf F -> gr F G -> below_pr F G.
+Proof. intros F G Hw [_ Hm] P HP. apply Hm. apply pr_co; assumption. Qed.
+
+Theorem gr_idl_pr : forall F G I P, wf F -> gr F G -> idl F I -> pr F P ->
+  incl G I /\ incl I P.
+Proof.
+  intros F G I P Hw HG [HIa [HIb HIm]] HP. split.
+  - apply HIm; [apply co_adm; apply gr_co; assumption | apply gr_below_pr; assumption].
+  - apply HIb. exact HP.
+Qed.
+
+(* the ideal extension is complete *)
+Theorem idl_co : forall F S, wf F -> idl F S -> co F S.
+Proof.
+  intros F S Hw [Ha [Hb Hm]]. split; [exact Ha|]. intros a Hin Hd.
+  apply (Hm (a :: S)).
+  - apply fundamental_adm; assumption.
+  - intros P HP x [Hx|Hx]; [subst x | apply (Hb P HP); exact Hx].
+    destruct (pr_co F P Hw HP) as [_ Hc]. apply Hc; [exact Hin|].
+    exact (defends_mono F S P a (Hb P HP) Hd).
+  - left. reflexivity.
+Qed.
+
+(* The characterisation used by the solver: with [A] the arguments that belong to every
+   preferred extension, the ideal extension is the greatest admissible subset of [A]. *)
+Definition pr_core_spec (F : af) (A : list nat) : Prop :=
+  forall a, In a A <-> In a (args F) /\ forall P, pr F P -> In a P.
+
+Definition pr_core (F : af) : list nat := filter (fun a => below_prb F [a]) (args F).
+
+Lemma pr_core_ok : forall F, pr_core_spec F (pr_core F).
+Proof.
+  intros F a. unfold pr_core. rewrite filter_In, below_prb_spec. split.
+  - intros [Hin H]. split; [exact Hin|]. intros P HP. apply (H P HP). left. reflexivity.
+  - intros [Hin H]. split; [exact Hin|]. intros P HP x [Hx|[]]. subst x. apply H. exact HP.
+Qed.
+
+Lemma below_pr_iff_core : forall F A S, pr_core_spec F A -> incl S (args F) ->
+  (below_pr F S <-> incl S A).
+Proof.
+  intros F A S HA Hi. split.
+  - intros H a Ha. apply HA. split; [apply Hi; exact Ha|]. intros P HP. apply (H P HP). exact Ha.
+  - intros H P HP a Ha. apply H in Ha. apply HA in Ha. destruct Ha as [_ Ha]. apply Ha. exact HP.
+Qed.
+
+Theorem idl_char : forall F A S, wf F -> pr_core_spec F A ->
+  (idl F S <-> adm F S /\ incl S A /\ forall S', adm F S' -> incl S' A -> incl S' S).
+Proof.
+  intros F A S _ HA. split.
+  - intros [Ha [Hb Hm]]. split; [exact Ha|]. split.
+    + apply (proj1 (below_pr_iff_core F A S HA (adm_incl F S Ha))). exact Hb.
+    + intros S' HS' Hi. apply Hm; [exact HS'|].
+      apply (proj2 (below_pr_iff_core F A S' HA (adm_incl F S' HS'))). exact Hi.
+  - intros [Ha [Hi Hm]]. split; [exact Ha|]. split.
+    + apply (proj2 (below_pr_iff_core F A S HA (adm_incl F S Ha))). exact Hi.
+    + intros S' HS' Hb. apply Hm; [exact HS'|].
+      apply (proj1 (below_pr_iff_core F A S' HA (adm_incl F S' HS'))). exact Hb.
+Qed.
+
+(* every semantics but the stable one has an extension *)
+Theorem ext_exists : forall s F, wf F -> s <> ST -> exists S, ext s F S.
+Proof.
+  intros s F Hw Hs. destruct s; cbn [ext].
+  - apply gr_exists; exact Hw.
+  - apply co_exists; exact Hw.
+  - apply pr_exists; exact Hw.
+  - congruence.
+  - apply sst_exists; exact Hw.
+  - apply stg_exists; exact Hw.
+  - apply idl_exists; exact Hw.
+Qed.
+
+Theorem skep_cred_wf : forall s F A, wf F -> s <> ST -> skep s F A -> cred s F A.
+Proof. intros s F A Hw Hs. apply skep_cred. apply ext_exists; assumption. Qed.
+
+(* ------------------------------------------------------------------ *)
+(** * Examples: the hypotheses are satisfiable and the functions compute *)
+
+(* 0 -> 1 -> 2, 3 <-> 4, 4 -> 5 -> 5 *)
+Definition ex_af : af :=
+  {| args := [0; 1; 2; 3; 4; 5]; atts := [(0, 1); (1, 2); (3, 4); (4, 3); (4, 5); (5, 5)] |}.
+
+Example ex_af_wf : wf ex_af.
+Proof.
+  split.
+  - repeat constructor; cbn [In]; lia.
+  - intros a b H. cbn [ex_af atts In] in H. cbn [ex_af args In].
+    repeat (destruct H as [H|H]; [inversion H; subst; lia|]). destruct H.
+Qed.
+
+Example ex_af_lfp : lfp ex_af = [0; 2].
+Proof. vm_compute. reflexivity. Qed.
+
+Example ex_af_gr : gr ex_af [2; 0].
+Proof. apply grb_fast_gr; [exact ex_af_wf | vm_compute; reflexivity]. Qed.
+
+Example ex_af_st : exists T, st ex_af T.
+Proof. exists [0; 2; 4]. apply stb_st. vm_compute. reflexivity. Qed.
+
+Example ex_af_core : pr_core ex_af = [0; 2].
+Proof. vm_compute. reflexivity. Qed.
+
+(* no stable extension: a single self-attacking argument *)
+Definition ex_loop : af := {| args := [0]; atts := [(0, 0)] |}.
+
+Example ex_loop_wf : wf ex_loop.
+Proof.
+  split.
+  - constructor; [intros [] | constructor].
+  - intros a b [H|[]]. inversion H; subst. split; left; reflexivity.
+Qed.
+
+Example ex_loop_no_st : forall S, ~ st ex_loop S.
+Proof.
+  intros S HS. pose proof (ext_incl ST ex_loop S HS) as Hi.
+  apply (st_seteq ex_loop S (canon (args ex_loop) S)) in HS;
+    [|apply seteq_sym; apply canon_seteq; exact Hi].
+  apply stb_st in HS. pose proof (canon_in_powerset (args ex_loop) S) as Hp.
+  revert HS Hp. generalize (canon (args ex_loop) S). intros C HS Hp.
+  cbn [ex_loop args powerset app map In] in Hp.
+  destruct Hp as [Hp|[Hp|[]]]; subst C; vm_compute in HS; discriminate HS.
+Qed.
+
+(* ------------------------------------------------------------------ *)
+Print Assumptions gr_lfp.
+Print Assumptions gr_unique.
+Print Assumptions grb_fast_gr.
+Print Assumptions adm_extends_pr.
+Print Assumptions st_co.
+Print Assumptions st_pr.
+Print Assumptions st_sst.
+Print Assumptions st_stg.
+Print Assumptions sst_pr.
+Print Assumptions pr_co.
+Print Assumptions gr_co.
+Print Assumptions sst_co.
+Print Assumptions sst_exists.
+Print Assumptions stg_exists.
+Print Assumptions sst_st_collapse.
+Print Assumptions stg_st_collapse.
+Print Assumptions idl_exists.
+Print Assumptions idl_unique.
+Print Assumptions gr_idl_pr.
+Print Assumptions idl_co.
+Print Assumptions idl_char.
+Print Assumptions cred_co_pr.
+Print Assumptions cred_co_adm.
+Print Assumptions skep_co_gr.
+Print Assumptions skep_cred.
+Print Assumptions st_none_skep.
+Print Assumptions st_none_not_cred.
+Print Assumptions ext_exists.
